@@ -174,7 +174,8 @@ EnvClose(e, how) ==
   /\ UNCHANGED <<pump, wb, relay, noise>>
 
 AppClose(how) == phase = "open" /\ RA!AppClose(how) /\ EnvClose("A", how)
-TgtClose(how) == RA!TgtClose(how) /\ EnvClose("T", how)
+\* acked: nothing of what the target wrote is still unsent when it resets (what had arrived at the server stays readable)
+TgtClose(how) == RA!TgtCloseA(how, sq[4] = 0 /\ ~rst[4]) /\ EnvClose("T", how)
 
 \* What the application and the target observe is written down as it happens; that each such step is allowed by
 \* RelayAbs (DeliverDown, AppEnd, ...) is exactly what the property RefinesAbs checks.
@@ -270,14 +271,18 @@ QuicStopped(p) ==
 
 \* the source was reset.  The server's pumps filter errors out of their streams (filter_map(r.ok())), so a reset
 \* looks like an end-of-stream there and the sink is closed in an orderly way; the client's pumps end with Err.
+\* whose pumps turn a failed read into an end-of-stream (deviation "ServerForwardsErr": the server's do not any more, so what
+\* the server had read just before its target reset the connection, and not yet flushed, is dropped with the flow)
+Swallows(p) == (Owner(p) = "s" /\ "ServerForwardsErr" \notin Dev) \/ "ClientSwallowsErr" \in Dev
 SrcRst(p) ==
   /\ pump[p] = "run" /\ relay[Owner(p)] \in {"run", "grace"} /\ rq[Src(p)] = 0 /\ rst[Src(p)]
   /\ ~("IgnoreLinkErr" \in Dev /\ IsLink(Src(p)))         \* deviation: a failed link read is retried for ever
-  /\ (Owner(p) = "s" \/ "ClientSwallowsErr" \in Dev) => wb[p] = 0
+  /\ Swallows(p) => wb[p] = 0
   /\ wb' = [wb EXCEPT ![p] = 0]
-  /\ IF Owner(p) = "s" \/ "ClientSwallowsErr" \in Dev
+  /\ IF Swallows(p)
        THEN /\ fin' = [fin EXCEPT ![Snk(p)] = IF fin[Snk(p)] = 0 /\ ~rst[Snk(p)] THEN 1 ELSE fin[Snk(p)]]
-            /\ pump' = [pump EXCEPT ![p] = "closed"]
+            \* the sink is closed exactly as at an end-of-stream: on a QUIC link that waits until the peer has read it all
+            /\ pump' = [pump EXCEPT ![p] = IF Link = "quic" /\ IsLink(Snk(p)) /\ "QuicNoWaitStopped" \notin Dev THEN "closing" ELSE "closed"]
        ELSE UNCHANGED fin /\ pump' = [pump EXCEPT ![p] = "err"]
   /\ UNCHANGED <<absVars, sq, rq, rst, ep, relay, noise>>
 
@@ -402,7 +407,7 @@ Spec == Init /\ [][Next]_vars /\ Fair
 
 \* refinement: every step is a step of the abstract relay (or invisible to it)
 AbsNext == \/ RA!Open(1, Reach) \/ RA!AppWrite(1) \/ RA!TgtWrite(1)
-           \/ \E h \in {"fin", "close", "rst"} : RA!AppClose(h) \/ RA!TgtClose(h)
+           \/ \E h \in {"fin", "close", "rst"} : RA!AppClose(h) \/ RA!TgtCloseA(h, TRUE) \/ RA!TgtCloseA(h, FALSE)
            \/ RA!Fault \/ RA!Lapse
            \/ RA!Dial(1) \/ RA!DeliverUp(1, TRUE) \/ RA!DeliverDown(1, TRUE)
            \/ \E h \in {"eof", "rst"} : RA!AppEnd(h) \/ RA!TgtEnd(h)
